@@ -117,6 +117,8 @@ def handle (ws : List String) : String :=
   | ["junk", _, _] => "total total -"
   | "early" :: rest => Early.handle rest
   | "early2" :: rest => Early.handle2 rest
+  | "resv" :: rest => Early.handleResv rest
+  | "resvtok" :: rest => Early.handleResvTok rest
   | _ => "bad-op bad-op -"
 
 end OttoVerif.C04.Driver
